@@ -33,6 +33,10 @@ func r10paths(c *core.Ctx, fn *ssa.Function) {
 		c.Fail(RD, "tglib.NASDecode:signature", fn.Pos(), "expected (ue, securityHeaderType, payload)")
 		return
 	}
+	if r10pathsX(c) {
+		return
+	}
+	c.Note("R10: NASDecode could not be interpreted; falling back to the path enumeration over its SSA form")
 	p := core.NewPather(fn)
 	// helpers of the same package are seen through: their counter operations and branches belong
 	// to the paths of this function (a step moved into a helper is still the same step)
